@@ -86,7 +86,7 @@ class World:
         return ((q, [f32(v + r.uniform(-noise, noise)) for v in emb]),)
 
 
-def new_line(rng, kind, shards=None, vshards=None, hist=None, max_idle=None, method=None, minconf=None, constraints=None):
+def new_line(rng, kind, shards=None, vshards=None, hist=None, max_idle=None, method=None, minconf=None, constraints=None, own_p=0.4):
     shards = shards or rng.randint(1, 4)
     vshards = vshards or rng.randint(1, 3)
     hist = hist or rng.randint(1, 5)
@@ -105,7 +105,7 @@ def new_line(rng, kind, shards=None, vshards=None, hist=None, max_idle=None, met
         vk = rng.choice([("euclid", rng.choice([0.15, 0.3, 0.6])), ("cosine", rng.choice([0.9, 0.98, 0.3]))])
         max_obs = rng.randint(1, 8)
         min_len = rng.randint(1, min(3, max_obs))
-        own = rng.random() < 0.4
+        own = rng.random() < own_p
         # the two own-area thresholds are set independently: both, only `use`, only `collect`
         own_use, own_col = rng.choice([(0.3, 0.6), (0.6, 0.3), (0.5, 0.0), (0.0, 0.5), (0.7, 0.0), (0.0, 0.7)]) if own else (0.0, 0.0)
         line += " V %s %s %d %d %d %s %s %s %s %s" % (vk[0], f32tok(vk[1]), rng.randint(1, 3), min_len, max_obs,
